@@ -58,6 +58,14 @@ struct recorder
     {
     }
 
+    // a callback invoked although an earlier callback returned true: the property says the visit stops "as soon as a
+    // callback returns true", so this is recorded (and makes the record list differ from the specified prefix)
+    bool after_stop(const char* what)
+    {
+        out.push_back(std::string("AFTER-STOP:") + what);
+        return true;
+    }
+
     // returns true when visiting must stop
     bool rec(const std::string& s)
     {
@@ -80,7 +88,7 @@ struct recorder
     {
         if(stopped)
         {
-            return true;
+            return after_stop(__func__);
         }
         const std::string name = sbepp::group_traits<Tag>::name();
         if(rec("G:" + pfx + name + ":n=" + std::to_string(static_cast<unsigned long long>(g.size()))))
@@ -102,7 +110,7 @@ struct recorder
     {
         if(stopped)
         {
-            return true;
+            return after_stop(__func__);
         }
         const std::string gp = group_prefix.back();
         const std::size_t i = entry_index.back()++;
@@ -120,7 +128,7 @@ struct recorder
     {
         if(stopped)
         {
-            return true;
+            return after_stop(__func__);
         }
         std::vector<std::string> tmp;
         gd::obs_data(tmp, "D:" + pfx + sbepp::data_traits<Tag>::name(), d, false);
@@ -164,7 +172,7 @@ struct recorder
     {
         if(stopped)
         {
-            return true;
+            return after_stop(__func__);
         }
         return rec("F:" + pfx + sbepp::field_traits<Tag>::name() + value_text(f));
     }
@@ -174,7 +182,7 @@ struct recorder
     {
         if(stopped)
         {
-            return true;
+            return after_stop(__func__);
         }
         const std::string name = sbepp::field_traits<Tag>::name();
         if(rec("F:" + pfx + name + "{}"))
@@ -193,7 +201,7 @@ struct recorder
     {
         if(stopped)
         {
-            return true;
+            return after_stop(__func__);
         }
         return rec("T:" + comp + sbepp::type_traits<Tag>::name() + value_text(t));
     }
@@ -203,7 +211,7 @@ struct recorder
     {
         if(stopped)
         {
-            return true;
+            return after_stop(__func__);
         }
         return rec("N:" + comp + sbepp::enum_traits<Tag>::name() + value_text(e));
     }
@@ -213,7 +221,7 @@ struct recorder
     {
         if(stopped)
         {
-            return true;
+            return after_stop(__func__);
         }
         return rec("S:" + comp + sbepp::set_traits<Tag>::name() + value_text(s));
     }
@@ -223,7 +231,7 @@ struct recorder
     {
         if(stopped)
         {
-            return true;
+            return after_stop(__func__);
         }
         const std::string name = sbepp::composite_traits<Tag>::name();
         if(rec("C:" + comp + name + "{}"))
